@@ -46,6 +46,10 @@ class _VecType:
 def is_instance(x, t):
     ts = t if isinstance(t, tuple) else (t,)
     for k in ts:
+        if isinstance(k, type):
+            if isinstance(x, k):
+                return True
+            continue
         n = getattr(k, "name", None) or getattr(k, "__name__", str(k))
         if n == "int" and isinstance(x, int) and not isinstance(x, bool):
             return True
